@@ -123,6 +123,10 @@ class ResponseEncoder:
         if encoding in self.attempted_charsets:
             return False
         self.attempted_charsets.add(encoding)
+        if not isinstance(self.body, list):
+            # A failed attempt must not use up a one-shot iterator:
+            # the next charset has to see the whole body again.
+            self.body = list(self.body)
         body = []
         for chunk in self.body:
             if isinstance(chunk, str):
